@@ -1,6 +1,7 @@
 import ScrapliModel.Lemmas.Decode
 import ScrapliModel.Lemmas.Framed
 import ScrapliModel.Props.C08
+import ScrapliModel.Generated.BodiesResponse
 /-!
 # C02 — NETCONF replies decode to exactly the payload, or are explicitly failed
 
@@ -358,5 +359,13 @@ theorem session_reply_decodes (evs : List Store.Ev) (ds : List Store.Delivery) (
     unfold decode11
     rw [decode11Raw_body cs lf (r.tail.take j) hcs hlfs htail]
     rfl
+
+/-! ## tie to the source: translated body = model (regenerated on every run) -/
+
+/-- the body of `(*NetconfResponse).record1dot0` as the translator renders it from the current
+source (`Generated/BodiesResponse.lean`): whatever `Result` held before, it ends up as `decode10`
+of the raw result -/
+theorem generated_record1dot0_eq (raw r0 : Bytes) :
+    Gen.Bodies.Response.record1dot0 raw r0 = decode10 raw := rfl
 
 end Scrapli.Netconf.C02
